@@ -30,12 +30,11 @@ TABLE = {
     "R2-C18-1": ("C18", "prefix_identity", S), "R2-C18-2": ("C18", "availability_optional", S), "R2-C19-1": ("C19", "hooks_between_examples", S), "R2-C19-2": ("C19", "hook_history_2", S),
     "R2-C20-1": ("C20", "scalar_text", S), "R2-C20-2": ("C20", None, O),
     "R3-C03-1": ("C03", "negative_items", S3), "R3-C03-2": ("C03", "positive_array", I3), "R3-C06-1": ("C06", None, M3), "R3-C09-1": ("C09", "curl_argv", I3),
-    "R3-C09-2": ("C09", "curl_argv", I3), "R3-C10-1": ("C10", "link_extraction", I3), "R3-C10-2": ("C10", "link_extraction", S3), "R3-C14-1": ("C14", None, M3),
+    "R3-C09-2": ("C09", "curl_argv", I3), "R3-C10-1": ("C10", "link_extraction", I3), "R3-C10-2": ("C10", "link_extraction", S3), "R3-C14-1": ("C14", "examples_respect_overrides", S3),
     "R3-C14-2": ("C14", "header_precedence", I3), "R3-C17-1": ("C17", "schema_examples", S3), "R3-C17-2": ("C17", "fixed_parameters", S3),
 }
 NOTES = {
     "R3-C06-1": "WSGI transport + werkzeug's choice of Content-Type for a multipart body without files: the harnesses execute the requests transport only; the WSGI / ASGI transports are outside (stated in C06's evidence)",
-    "R3-C14-1": "examples phase: get_strategies_from_examples merges the user's override container after the example container; no obligation executes that merge (add_examples is driven with prepared cases). Found too late to extend the check",
     "R3-C09-1": "caught because the harness replaces curl.quote by a placeholder and the change routes values through a new helper instead: what is detected is 'the command no longer quotes through shlex.quote', not the specific mis-escaping of $ inside double quotes",
     "R3-C03-2": "the sub-agent had no time for the full pinned suite on this change; I ran it myself (tools/confirm_seed.py R3-C03-2: 1749/1750, only the environment-absent id missing)",
     "R3-C17-2": "same function as R2-C14-2 (get_parameters_strategy), other mechanism; missed because the harness listed the required parameter first - order optional-first added; the obligation now serves C17 as well",
